@@ -45,7 +45,7 @@ RXN_POOL = ["H2O", "H+", "OH-", "Fe+3", "[Fe(CN)6]-3", "CO2(g)", ".OH", "Na2CO3.
 
 
 def bounds(tier):
-    return dict(N=5 if tier == "quick" else 6, NS=3 if tier == "quick" else 4, rxn_terms_per_side=2, rxn_coeffs=[1, 2, 10], rxn_pool=RXN_POOL)
+    return dict(N=5 if tier == "quick" else 6, NS=3 if tier == "quick" else 4, rxn_terms_per_side=2, rxn_coeffs=[1, 2, 10, 0.5], rxn_pool=RXN_POOL)
 
 
 def _J(a):
@@ -147,10 +147,22 @@ def _check_substance(res, st, s, case_base):
     res.nontrivial += 1
     try:
         sub = Substance.from_formula(s)
-        got = dict(name=sub.name, latex=sub.latex_name, unicode=sub.unicode_name, html=sub.html_name, composition=sub.composition)
+        got = dict(name=sub.name, latex=sub.latex_name, unicode=sub.unicode_name, html=sub.html_name, composition=dict(sub.composition))
     except Exception as e:
         got = "EXC %s" % type(e).__name__
     exp = dict(name=s, latex=F.render(st, "latex"), unicode=F.render(st, "unicode"), html=F.render(st, "html"), composition=ref)
+    if isinstance(got, dict) and got == exp:
+        # the carried composition belongs to this object: giving it a charge (or editing it) must not show in an object
+        # created from the same formula afterwards
+        try:
+            sub.composition[0] = 99
+            Substance.from_formula(s, charge=3) if 0 not in ref else None
+            again = Substance.from_formula(s).composition
+        except Exception as e:
+            again = "EXC %s" % type(e).__name__
+        res.evaluations += 1
+        if again != ref:
+            res.violation("C13|Substance.from_formula|composition-shared-between-objects", "after editing one Substance created from %r, a new one carries %r (formula says %r)" % (s, again, ref), dict(case_base, what="substance"), again, ref)
     if got != exp:
         res.outcomes["substance-WRONG"] += 1
         res.violation("C13|Substance.from_formula|names-composition", "Substance.from_formula(%r) carries %r, expected %r" % (s, got, exp), dict(case_base, what="substance"), got, exp)
@@ -251,9 +263,11 @@ def _rxn_cases(first):
             remaining = [k for k in others if k not in rest]
             for np_ in (1, 2):
                 for prod in itertools.combinations(remaining[:6], np_):
-                    for coeffs in itertools.product([1, 2, 10], repeat=nr + np_):
+                    for coeffs in itertools.product([1, 2, 10, 0.5], repeat=nr + np_):
                         if nr + np_ == 4 and coeffs.count(1) < 2:
                             continue  # keep the product space small: at most two non-unit coefficients on 4 terms
+                        if nr + np_ >= 3 and coeffs.count(0.5) > 1:
+                            continue
                         for order in ("sorted", "reversed"):
                             yield reac, prod, coeffs, order
                         if nr + np_ <= 3 and coeffs.count(1) >= nr + np_ - 1:
@@ -291,7 +305,7 @@ def _check_rxn(res, cls, reac, prod, coeffs, order, subst, names):
         res.transitions += len(exp_r) + len(exp_p)
         res.evaluations += 1
         res.nontrivial += 1
-        side = lambda terms: " + ".join((("%d " % c) if c != 1 else "") + names[k][fmt] for k, c in terms)
+        side = lambda terms: " + ".join((("%s " % c) if c != 1 else "") + names[k][fmt] for k, c in terms)
         # inactive species stay on their own side of the arrow, in a parenthesised group after the active terms
         grp = lambda terms: (" + ( %s)" % side(terms)) if terms else ""
         exp = "%s%s %s %s%s" % (side(exp_r), grp(exp_ir), ARROWS[(fmt, cls)], side(exp_p), grp(exp_ip))
